@@ -116,6 +116,7 @@ type VerifLayerEntry struct {
 	Ref, Key    string
 	LayerDigest string
 	TOCDigest   string
+	Closed      bool // the layer object behind the handle the manager keeps has been closed (Check fails)
 }
 
 // VerifCountEntry is one use-count entry.
@@ -151,7 +152,7 @@ func (r *LayerManager) VerifState() VerifStateDump {
 		}
 		for k, l := range m {
 			info := l.Info()
-			d.Layers = append(d.Layers, VerifLayerEntry{Ref: ref, Key: k, LayerDigest: info.Digest.String(), TOCDigest: info.TOCDigest.String()})
+			d.Layers = append(d.Layers, VerifLayerEntry{Ref: ref, Key: k, LayerDigest: info.Digest.String(), TOCDigest: info.TOCDigest.String(), Closed: l.Check() != nil})
 		}
 	}
 	for ref, m := range r.refcounter {
@@ -256,4 +257,12 @@ func verifAfterCacheLayer(key string) {
 	verifGate.mu.Unlock()
 	close(reached)
 	<-open
+}
+
+// verifBeforeRecordError is the same gate on the error path: it stops a failed resolveLayer call right before its
+// deferred step records the error in resolveLayerCache.
+func verifBeforeRecordError(key string, err error) {
+	if err != nil {
+		verifAfterCacheLayer(key)
+	}
 }
